@@ -161,7 +161,9 @@ def run_case(case, R):
         thm = _therm(method)
         _df(thm, [float(xs[0]) * 1.5 if len(xs) else 1e-3], T)       # warm the cached equilibria at a supersaturated point first
         dd = np.array([_df(thm, [xv], T)[0] for xv in xd])
-        ok = bool(np.all(np.isfinite(dd)) and np.all(dd < 0) and np.all(np.diff(dd) >= -1e-6 * np.abs(dd[:-1])) and np.all(np.diff(dd[5:]) > 0))
+        # below 1e-11 the library passes 1e-11 to the solver, whose mass balance tolerance is then 10 % of the composition:
+        # 'never decreasing' is asserted to 2 % there, 'increasing' from 1e-11 upwards (steps of thousands of J/mol)
+        ok = bool(np.all(np.isfinite(dd)) and np.all(dd < 0) and np.all(np.diff(dd) >= -0.02 * np.abs(dd[:-1])) and np.all(np.diff(dd[5:]) > 0))
         R.check('c12.df_monotone_x', ok, dict(mech, method=method, range='dilute'), T=T, x=xd, DF=dd)
     for method in ('approximate', 'sampling', 'curvature'):
         try:
